@@ -9,8 +9,10 @@
 mod builder;
 mod copysrc;
 mod dirhandle;
+mod dtunknown;
 mod forged;
 mod mkdirall;
+mod mkdots;
 mod readdir;
 mod readend;
 mod rmall;
@@ -50,8 +52,10 @@ fn main() {
         "copysrc" => copysrc::phase(&args, &master.path),
         "dirhandle" => dirhandle::phase(&args, &master.path),
         "forged" => forged::phase(&args, &master.path),
+        "mkdots" => mkdots::phase(&args, &master.path),
+        "dtunknown" => dtunknown::phase(&args, &master.path),
         "rmarg" => rmarg::phase(&args, &master.path),
-        _ => panic!("unknown phase (mkdirall|rwcopy|readend|copysrc|readdir|forged|dirhandle|rmall|rmarg|seq|builder)"),
+        _ => panic!("unknown phase (mkdirall|mkdots|rwcopy|readend|copysrc|readdir|forged|dirhandle|dtunknown|rmall|rmarg|seq|builder)"),
     };
     drop(master);
     let (tb, why) = util::temp_base();
@@ -69,6 +73,9 @@ fn replay(v: &serde_json::Value, r: &mut Report) {
     } else {
         util::Master::new("replay")
     };
+    if v["dt_unknown"].as_bool() == Some(true) {
+        util::DT_UNKNOWN_MODE.store(true, std::sync::atomic::Ordering::SeqCst);
+    }
     let block = master.path.join("b0");
     std::fs::create_dir_all(&block).unwrap();
     match phase {
@@ -78,6 +85,7 @@ fn replay(v: &serde_json::Value, r: &mut Report) {
             let v = if v.get("of").is_some() { &v["of"] } else { v };
             rwcopy::run_case(&block, &rwcopy::RwCase::from_json(v).expect("rwcopy case"), r)
         }
+        "mkdots" => mkdots::run_case(&block, &mkdots::DotCase::from_json(v).expect("mkdots case"), r),
         "copysrc" => copysrc::run_case(&block, &copysrc::CsCase::from_json(v).expect("copysrc case"), r),
         "forged" => forged::run_case(&block, &forged::FgCase::from_json(v).expect("forged case"), r),
         "rmarg" => rmarg::run_case(&block, &rmarg::RaCase::from_json(v).expect("rmarg case"), r),
